@@ -129,6 +129,7 @@ pub const D_COMMIT_HEAD: u32 = 8; // stagger: hold exec start of k>0 until commi
 pub const D_COORD: u32 = 16; // hold coordinators between publish and notify until a worker spins
 pub const D_WAIT: u32 = 32; // hold a waiter before park until a notify is issued
 pub const D_CACHE: u32 = 64; // hold a cache filler between fetch and insert until a commit is published
+pub const D_FINISH_AT_HEAD: u32 = 128; // hold a finished attempt until the commit boundary reaches its tx
 
 impl Profile {
     pub fn quiet() -> Self {
@@ -383,6 +384,11 @@ impl Obs {
                 if tl_rand() % 3 == 0 {
                     let before = self.validations_done.load(Relaxed);
                     self.hold(1500, || self.validations_done.load(Relaxed) != before);
+                }
+            }
+            Point::ExecAfterRun if bits & D_FINISH_AT_HEAD != 0 && a > 0 => {
+                if tl_rand() % 2 == 0 {
+                    self.hold(4000, || self.commit_published.load(Relaxed) >= a);
                 }
             }
             Point::ExecBeforeRun if bits & D_COMMIT_HEAD != 0 && a > 0 => {
